@@ -164,6 +164,15 @@ func FuncKey(fn *ssa.Function) (pkgPath, key string) {
 	return pkgPath, fn.Name()
 }
 
+func (P *Program) pkgHasSpecs(pkg string) bool {
+	for _, m := range P.Specs.Macros {
+		if m.Pkg == pkg {
+			return true
+		}
+	}
+	return false
+}
+
 func (P *Program) ContractFor(fn *ssa.Function) *Contract {
 	if fn == nil {
 		return nil
